@@ -23,6 +23,8 @@ META = {
     'exhaustive': True,
 }
 
+META['explanation'] += ' ' + 'R9 covers None items and positions a list refuses (TypeError, nothing booked). R11: enum coded vectors book the width they write (shared with C10.R3).'
+
 MUTATING_CALLS = {'append', 'insert', 'extend', 'pop', 'remove', 'clear', 'sort', 'reverse', '__setitem__', '__delitem__'}
 SEQ_METHODS = {'__delitem__', '__setitem__', 'insert', 'append', 'extend', 'pop', 'remove', 'clear', 'reverse',
                '__iadd__', 'sort'}
